@@ -23,7 +23,7 @@ MIN_NONVACUOUS = {'quick': {'storage.level_in_bounds': 200, 'storage.end_level':
 
 
 def gen_case(rng):
-    mode = gen.pick(rng, ['lp', 'lp', 'lp', 'lp', 'nosimult', 'maxdur', 'blocks', 'coarse'])
+    mode = gen.pick(rng, ['lp', 'lp', 'lp', 'lp', 'nosimult', 'maxdur', 'blocks', 'blocks', 'coarse'])
     grid_kw = {'steps': (5, 26)}
     if mode in ('blocks', 'coarse'):
         grid_kw['freqs'] = ['h', '2h', '30min']; grid_kw['steps'] = (12, 40); grid_kw['hour_offsets'] = (0, 0, 6)
@@ -54,10 +54,12 @@ def gen_case(rng):
             a['size'] = max(a['size'], 5.)
         elif mode == 'blocks':
             a['end_level'] = a['start_level']
-            if rng.random() < 0.35 and a['size'] > 0:
+            if rng.random() < 0.5 and a['size'] > 0:
                 # start level above / below the end level: every block starts at the one and ends at the other
-                a['start_level'], a['end_level'] = gen.pick(rng, [(a['size'] / 2., 0.), (a['size'] / 2., a['size'] / 4.), (0., a['size'] / 4.)])
+                a['start_level'], a['end_level'] = gen.pick(rng, [(a['size'] / 2., 0.), (a['size'] / 2., a['size'] / 4.), (0., a['size'] / 4.), (a['size'] * 0.75, 0.)])
                 a['inflow'] = 0.
+                if rng.random() < 0.5:
+                    a['size'] = 5.; a['start_level'] = min(a['start_level'], 3.75); a['end_level'] = min(a['end_level'], 1.25)      # (a small reservoir: the level bounds bind)
             a['block_size'] = gen.pick(rng, ['d', '12h', '6h'])
             a.pop('start', None); a.pop('end', None)
         elif mode == 'coarse':
